@@ -10,9 +10,9 @@ CONSTANTS MaxCalls
 VARIABLES accZ, poisoned
 vars == <<callVars, accZ, poisoned>>
 
-Cfgs == {[kind |-> "plain", d |-> 2, k |-> 2, n |-> 0, w |-> <<>>, bins |-> 0, calls |-> c] : c \in 0 .. MaxCalls}
-   \cup {[kind |-> "vegas", d |-> 2, k |-> 1, n |-> 0, w |-> <<>>, bins |-> 2, calls |-> c] : c \in 0 .. MaxCalls}
-   \cup {[kind |-> "mc", d |-> 1, k |-> 2, n |-> 3, w |-> <<0, 1, 1>>, bins |-> 0, calls |-> c] : c \in 0 .. MaxCalls}
+Cfgs == {[kind |-> "plain", d |-> 2, k |-> 2, n |-> 0, w |-> <<>>, bins |-> 0, calls |-> c, noSq |-> FALSE] : c \in 0 .. MaxCalls}
+   \cup {[kind |-> "vegas", d |-> 2, k |-> 1, n |-> 0, w |-> <<>>, bins |-> 2, calls |-> c, noSq |-> FALSE] : c \in 0 .. MaxCalls}
+   \cup {[kind |-> "mc", d |-> 1, k |-> 2, n |-> 3, w |-> <<0, 1, 1>>, bins |-> 0, calls |-> c, noSq |-> FALSE] : c \in 0 .. MaxCalls}
 
 Values == {<<"fin", 0>>, <<"fin", 1>>, <<"fin", -2>>, <<"nan", 0>>, <<"+inf", 0>>}
 Weights == {<<"fin", 1>>, <<"fin", 2>>, <<"+inf", 0>>}
